@@ -181,6 +181,9 @@ func init() {
 	registerProp(&propDef{ID: "C10", Rules: rulesC10, Floor: 3,
 		Expl: "Narrow structural clauses only — the injectivity half of C10: in HashNoPad and HashOrNoop the limbs are packed by a loop accumulator acc' = acc + limb_k·base^k (recurrence extracted from the SSA phi; base a compile-time constant ≥ 2^64; exponent = the limb's own index; number of limbs per element bounded — by the slice bounds lo+c / min(_, lo+c) or by a dominating len(input) ≤ c — with base^T ≤ r), and ToVec splits the canonical bit decomposition (no explicit width) into consecutive disjoint chunks of ≤ 63 bits. Agreement of the BN254 Poseidon permutation, sponge and shortcut with the reference PoseidonBN128 for all inputs is numeric and not decided.",
 		Rule: "one obligation per packing accumulator and for the chunking"})
+	registerProp(&propDef{ID: "C15", Rules: rulesC15, Floor: 8,
+		Expl: "Narrow structural clauses only — the selector-filtering and position-wise-sum half of C15, decided on the SSA of plonk/gates: EvaluateGateConstraints calls evalFiltered once for every gate with the gate's own row, selectorIndices[i], groups[selectorIndices[i]] and NumSelectors(); the results are added position-wise into a zeroed vector of numGateConstraints that is returned; evalFiltered reads the selector constant before RemovePrefix, strips exactly numSelectors constants before the gate sees them, multiplies every returned constraint by the filter; computeFilter is ∏(i−s) over [start,end) skipping exactly i = row, times (UNUSED_SELECTOR−s) iff several selectors, UNUSED_SELECTOR = 2^32−1. Equality of each Gate.EvalUnfiltered with plonky2's gate polynomial for all wire values is numeric and NOT decided.",
+		Rule: "one obligation per structural clause of the filter/sum code"})
 	registerProp(&propDef{ID: "C20", Rules: rulesC20, Floor: 20,
 		Expl: "T3 guard table: 18 refusals reachable from VerifierChip.Verify keyed by the compared quantities (lengths of proof lists vs configuration values, normalised to 'continues iff X op Y'), each must execute on every path and for every element of the list it validates (full-range loops); plus the 16-public-inputs refusal of CircuitFixed.Define and the hiding refusal of ReadCommonCircuitData. Decides presence, operator and coverage of the guards; that a shape change not covered by a guard is rejected by the equations is not decided.",
 		Rule: "one obligation per guard of the hand-confirmed table (DESIGN appendix A.4); the same comparison made at several sites must be found at each"})
